@@ -12,4 +12,40 @@ def build(run):
     outputasync.verify_ctrl_wait(run)
     outputasync.verify_ctrl_start(run)
     outputasync.verify_ctrl_cancel(run)
+    outputasync.verify_stop_start(run)
+    outputasync.verify_init(run)
+    outputasync.verify_shield_cancel(run)
     run.replayer('OutputAsync._output_coro/no_unexpected_raise:KeyError', lambda run_, ob, model: open('/verif/specs/replay_c12.py').read())
+
+    # ---- lemmas: the output equals the number of active runs ------------------------------------------------------------------------------
+    out, active = Int('out'), Int('active')
+    run.lemma('run_counter/start_of_a_run_keeps_output_equal_to_active_runs', [out == active], out + 1 == active + 1)
+    run.lemma('run_counter/end_of_a_run_keeps_output_equal_to_active_runs', [out == active, active >= 1], And(out - 1 == active - 1, out - 1 >= 0))
+    run.lemma('run_counter/idle_means_zero', [out == active, active == 0], out == 0)
+    # ---- scans -----------------------------------------------------------------------------------------------------------------------------
+    import ast
+    from edzed.blocklib import sblocks2
+    owners = set()
+    for file, tree in scan.trees().items():
+        if not file.endswith('sblocks2.py'): continue
+        for n in ast.walk(tree):
+            if isinstance(n, ast.ClassDef) and n.name == 'OutputAsync':
+                for f in n.body:
+                    if isinstance(f, (ast.FunctionDef, ast.AsyncFunctionDef)):
+                        for x in ast.walk(f):
+                            if isinstance(x, ast.Call) and isinstance(x.func, ast.Attribute) and x.func.attr == 'set_output': owners.add(f.name)
+    run.scan('output_written_only_by_the_wrapper_and_init', owners == {'_output_coro_wrapper', 'init_regular'}, f'{sorted(owners)}')
+    users = sorted(x for x in scan.method_callers('_output_coro_wrapper'))
+    run.scan('wrapper_callers', users == ['edzed/blocklib/sblocks2.py:OutputAsync._ctrl_cancel', 'edzed/blocklib/sblocks2.py:OutputAsync._ctrl_start',
+                                          'edzed/blocklib/sblocks2.py:OutputAsync._ctrl_wait', 'edzed/blocklib/sblocks2.py:OutputAsync.stop_async'], f'{users}')
+    q = scan.container_mutators('_queue', methods=('put_nowait', 'put', 'get_nowait', 'get'))
+    run.scan('data_queue_users', [x for x in q if 'OutputAsync' in x] == ['edzed/blocklib/sblocks2.py:OutputAsync._ctrl_start', 'edzed/blocklib/sblocks2.py:OutputAsync._ctrl_wait',
+                                                                            'edzed/blocklib/sblocks2.py:OutputAsync._event_put', 'edzed/blocklib/sblocks2.py:OutputAsync.stop'], f'{q}')
+    run.scan('handler_registered:put', sblocks2.OutputAsync._ct_handlers.get('put') is vars(sblocks2.OutputAsync).get('_event_put'),
+             "OutputAsync._ct_handlers['put'] is the verified OutputAsync._event_put")
+    run.unclaim("'consecutive runs are separated by at least guard_time' across two runs of the control task and 'pending work is completed within "
+                "stop_timeout' are consequences of the per-function contracts (the guard sleep is inside each run, shielded; stop_async is awaited "
+                "under stop_timeout by _run_tasks: C08) that are stated, not re-proved as one whole-history theorem")
+    run.assume('the user coroutine is code behind an interface contract (returns, fails or is cancelled); it honours cancellation')
+    run.assume('A-cancel: only the control task cancels output tasks; time is the loop clock as a real number')
+    run.trust('asyncio.Queue (FIFO, unbounded), create_task, shield, gather, Task.cancel/done; Event.send and set_output contracts (C02, C18)')
